@@ -397,6 +397,7 @@ struct BlindCfg {
     ext: usize,
     limbs: usize, // limbs of the accumulator (k_res = limbs·b), dnum = limbs, k_brk = (limbs+1)·b
     k_lwe: usize,
+    rank: usize, // GLWE rank of the accumulator and of the key (1 as in the repository's tests; 2 as used by the BDD layer)
 }
 
 /// balanced digits (radix 2^b, most significant first) of x mod 2^(size·b)
@@ -484,7 +485,8 @@ fn run_blind(cfg: &Cfg, rep: &mut Report) {
                             if cfg.thorough { [16usize, 32, 48, 96][grid.len() % 4] } else { [16usize, 32, 48][grid.len() % 3] }
                         }
                     };
-                    grid.push(BlindCfg { n, b, n_lwe, dist, ext, limbs, k_lwe: 2 * b.max(13) });
+                    let rank = if grid.len() % 4 == 3 { 2 } else { 1 };
+                    grid.push(BlindCfg { n, b, n_lwe, dist, ext, limbs, k_lwe: 2 * b.max(13), rank });
                 }
             }
         }
@@ -520,7 +522,7 @@ fn blind_key(c: &BlindCfg, round: u64, cfg: &Cfg, rng: &mut Rng, rep: &mut Repor
     let module = new_module(n);
     let seeds = (rng.seed32(), rng.seed32(), rng.seed32());
     let kdesc = jo! {"backend" => BE_NAME, "path" => "blind", "n" => n, "ext" => ext, "base2k" => b, "n_lwe" => c.n_lwe, "dist" => c.dist.name(),
-    "k_res" => k_res, "k_brk" => k_brk, "dnum" => c.limbs, "k_lwe" => c.k_lwe, "log2_2d" => m,
+    "k_res" => k_res, "k_brk" => k_brk, "dnum" => c.limbs, "k_lwe" => c.k_lwe, "log2_2d" => m, "rank" => c.rank,
     "modswitch_regime" => if b > m + 1 { "top_limb" } else if b > m { "top_limb_equal" } else { "multi_limb" },
     "key_seed" => hex(&seeds.0[..8]), "seed" => cfg.seed, "shard" => cfg.shard, "nshards" => cfg.nshards, "tier" => if cfg.thorough { "thorough" } else { "quick" }, "round" => round};
 
@@ -530,11 +532,11 @@ fn blind_key(c: &BlindCfg, round: u64, cfg: &Cfg, rng: &mut Rng, rep: &mut Repor
         base2k: (b as u32).into(),
         k: (k_brk as u32).into(),
         dnum: (c.limbs as u32).into(),
-        rank: 1u32.into(),
+        rank: (c.rank as u32).into(),
     })
     .unwrap();
     let glwe_infos =
-        EncryptionLayout::new_from_default_sigma(GLWELayout { n: (n as u32).into(), base2k: (b as u32).into(), k: (k_res as u32).into(), rank: 1u32.into() }).unwrap();
+        EncryptionLayout::new_from_default_sigma(GLWELayout { n: (n as u32).into(), base2k: (b as u32).into(), k: (k_res as u32).into(), rank: (c.rank as u32).into() }).unwrap();
     let lwe_infos = EncryptionLayout::new_from_default_sigma(LWELayout { n: (c.n_lwe as u32).into(), k: (c.k_lwe as u32).into(), base2k: (b as u32).into() }).unwrap();
 
     // ---- keys
@@ -583,7 +585,9 @@ fn blind_key(c: &BlindCfg, round: u64, cfg: &Cfg, rng: &mut Rng, rep: &mut Repor
         }
     };
     rep.count("blind_keys", 1);
-    let s_glwe: Vec<i64> = sk_glwe.verif_data().at(0, 0).to_vec();
+    let s_glwe_cols: Vec<Vec<i64>> = (0..c.rank).map(|col| sk_glwe.verif_data().at(col, 0).to_vec()).collect();
+    let s_glwe: Vec<i64> = s_glwe_cols.concat();
+    rep.count(&format!("blind_rank{}", c.rank), 1);
     let s_lwe: Vec<i64> = sk_lwe.raw().to_vec();
     let h_glwe = s_glwe.iter().filter(|x| **x != 0).count();
     if s_lwe.iter().any(|x| *x != 0 && *x != 1) {
@@ -599,7 +603,7 @@ fn blind_key(c: &BlindCfg, round: u64, cfg: &Cfg, rng: &mut Rng, rep: &mut Repor
     let sigma_brk = 3.2 * (-(k_brk as f64)).exp2();
     let standard_path = ext == 1 && !matches!(c.dist, SkDist::Block(bs) if bs > 1);
     let growth = if standard_path { (c.n_lwe as f64 + 1.0) / 2.0 } else { 1.0 };
-    let per_step = growth * 2.0 * 2.0 * c.limbs as f64 * n as f64 * (2.0 * b as f64).exp2() / 12.0 * sigma_brk * sigma_brk
+    let per_step = growth * 2.0 * (c.rank as f64 + 1.0) * c.limbs as f64 * n as f64 * (2.0 * b as f64).exp2() / 12.0 * sigma_brk * sigma_brk
         + 2.0 * (1.0 + h_glwe as f64) * (-2.0 * k_res as f64).exp2() / 12.0;
     let sigma_pred = (c.n_lwe.max(1) as f64 * per_step).sqrt();
     let floor = (64.0 * sigma_pred).max(4.0 * (-(k_res as f64)).exp2());
@@ -758,19 +762,21 @@ fn blind_key(c: &BlindCfg, round: u64, cfg: &Cfg, rng: &mut Rng, rep: &mut Repor
                 let mut phase = vec![0u128; n];
                 for j in 0..size_res {
                     let body = res.data().at(0, j);
-                    let msk = res.data().at(1, j);
                     let mut pj: Vec<i128> = body.iter().map(|v| *v as i128).collect();
-                    for (u, su) in s_glwe.iter().enumerate() {
-                        if *su == 0 {
-                            continue;
-                        }
-                        for (v, mv) in msk.iter().enumerate() {
-                            let t = u + v;
-                            let prod = *mv as i128 * *su as i128;
-                            if t < n {
-                                pj[t] += prod;
-                            } else {
-                                pj[t - n] -= prod;
+                    for (col, s_col) in s_glwe_cols.iter().enumerate() {
+                        let msk = res.data().at(col + 1, j);
+                        for (u, su) in s_col.iter().enumerate() {
+                            if *su == 0 {
+                                continue;
+                            }
+                            for (v, mv) in msk.iter().enumerate() {
+                                let t = u + v;
+                                let prod = *mv as i128 * *su as i128;
+                                if t < n {
+                                    pj[t] += prod;
+                                } else {
+                                    pj[t - n] -= prod;
+                                }
                             }
                         }
                     }
